@@ -193,4 +193,149 @@ Section Proofs.
     - eapply inv2_exec; eauto.
     - eapply inv2_fifo1; eauto.
   Qed.
+
+  (* ----- jobs begin in the order in which they were taken from the queue ----- *)
+  Lemma pend_cases : forall pt a, pend_of pt = Some a -> act_none_pt pt = true \/ own_of pt = Some a.
+  Proof. destruct pt; simpl; intros; try discriminate; auto. Qed.
+  Lemma pend_ret_to : forall k, pend_of (fst (ret_to k)) = None.
+  Proof. destruct k; simpl; auto. destruct ops; simpl; auto. destruct o; simpl; auto. Qed.
+  Lemma pend_unw_to : forall e k, pend_of (fst (unw_to e k)) = None.
+  Proof. induction k; simpl; auto. Qed.
+  Lemma pend_enter : forall o r, pend_of (fst (enter o r)) = None.
+  Proof. destruct o; reflexivity. Qed.
+
+  Lemma pend_unique : forall c u v pu pv a b, Inv1 c ->
+    nth_error (thr c) u = Some pu -> nth_error (thr c) v = Some pv ->
+    pend_of (fst pu) = Some a -> pend_of (fst pv) = Some b -> u = v.
+  Proof.
+    intros c u v [pu ku] [pv kv] a b I Hu Hv Pu Pv. simpl in *.
+    destruct (pend_cases _ _ Pu) as [Nu|Ou]; destruct (pend_cases _ _ Pv) as [Nv|Ov].
+    - eapply lock_exclusive; eauto using actnone_needs_lock.
+    - pose proof (i_actnone _ I _ _ Hu Nu). pose proof (i_actown _ I _ _ _ Hv Ov). congruence.
+    - pose proof (i_actnone _ I _ _ Hv Nv). pose proof (i_actown _ I _ _ _ Hu Ou). congruence.
+    - eapply (own_unique c u v); [exact I | exact Hu | exact Hv | unfold own; simpl; rewrite Ou; reflexivity | unfold own; simpl; rewrite Ov; reflexivity].
+  Qed.
+
+  (* while a thread is between reading "nothing active" and taking a job, no job is pending *)
+  Lemma none_pending_at_run3 : forall c t k v pv b, Inv1 c ->
+    nth_error (thr c) t = Some (Run3, k) -> nth_error (thr c) v = Some pv -> pend_of (fst pv) = Some b -> False.
+  Proof.
+    intros c t k v [pv kv] b I Ht Hv Pv. simpl in *.
+    pose proof (i_actnone _ I _ _ Ht eq_refl) as An.
+    destruct (pend_cases _ _ Pv) as [Nv|Ov].
+    - assert (t = v) by (eapply lock_exclusive; eauto using actnone_needs_lock). subst.
+      rewrite Ht in Hv. inversion Hv. subst. discriminate.
+    - pose proof (i_actown _ I _ _ _ Hv Ov). congruence.
+  Qed.
+
+  Definition P1 (c : config pc) : Prop :=
+    forall u q a, nth_error (thr c) u = Some q -> pend_of (fst q) = Some a ->
+                  deq_order (ev c) = begin_order (ev c) ++ [a].
+  Definition P2 (c : config pc) : Prop :=
+    (forall u q, nth_error (thr c) u = Some q -> pend_of (fst q) = None) ->
+    deq_order (ev c) = begin_order (ev c).
+
+  Lemma inv3_p1 : forall c t c', Inv1 c -> Inv2 c -> P1 c -> P2 c -> step' c t = Some c' -> P1 c'.
+  Proof.
+    intros c t c' I I2 p1 p2 Hs. pose proof (i_queue _ I2) as Q.
+    step_cases Hs I.
+    all: try (pose proof (i_actown _ I _ _ _ Hp eq_refl) as Ao; simpl in Ao; try rewrite Ao).
+    all: intros uu qq aa Hu Hn.
+    all: marks; simpl hist; unfold events; simpl map; fold (events (hist c)).
+    all: rewrite deq_order_cons, begin_order_cons.
+    all: simpl thr in Hu.
+    all: try (match type of Hu with nth_error (_ ++ _) _ = _ =>
+                apply nth_error_app_one in Hu; destruct Hu as [[_ Hu]|[-> ->]];
+                [| simpl in Hn; first [ discriminate Hn
+                                      | inversion Hn; subst; simpl; repeat rewrite app_nil_r;
+                                        eapply p1; [exact Hp | reflexivity] ] ] end).
+    all: eapply nth_error_set_nth in Hu; [|exact Hp]; destruct Hu as [[-> ->]|[Hne Hu]].
+    (* the moving thread *)
+    all: try (simpl fst in Hn;
+              repeat match type of Hn with context [pend_of (fst (match ?x with _ => _ end))] => destruct x eqn:? end;
+              try rewrite pend_ret_to in Hn; try rewrite pend_unw_to in Hn; try rewrite pend_enter in Hn;
+              simpl in Hn; try discriminate Hn;
+              first [ simpl; repeat rewrite app_nil_r; eapply p1; [exact Hp | exact Hn]
+                    | inversion Hn; subst; simpl; rewrite app_nil_r; f_equal; apply p2;
+                      intros u0 q0 H0; destruct (pend_of (fst q0)) eqn:E0; auto;
+                      exfalso; eapply none_pending_at_run3; eauto ]; fail).
+    (* other threads *)
+    all: try (first [ exfalso; eapply none_pending_at_run3; [exact I | exact Hp | exact Hu | exact Hn]
+                    | exfalso; apply Hne; eapply (pend_unique c uu t); [exact I | exact Hu | exact Hp | exact Hn | reflexivity]
+                    | simpl; repeat rewrite app_nil_r; eapply p1; [exact Hu | exact Hn] ]; fail).
+  Qed.
+
+  Lemma inv3_p2 : forall c t c', Inv1 c -> Inv2 c -> P1 c -> P2 c -> step' c t = Some c' -> P2 c'.
+  Proof.
+    intros c t c' I I2 p1 p2 Hs.
+    step_cases Hs I.
+    all: try (pose proof (i_actown _ I _ _ _ Hp eq_refl) as Ao; simpl in Ao; try rewrite Ao).
+    all: try (match goal with Equ : deques _ 0 = ?r :: _ |- _ => destruct r end).
+    all: intros Hnone.
+    all: marks; simpl hist; unfold events; simpl map; fold (events (hist c)).
+    all: rewrite deq_order_cons, begin_order_cons.
+    all: simpl thr in Hnone.
+    all: first
+      [ (* the new configuration has a pending job: the premise is false *)
+        exfalso;
+        first [ pose proof (Hnone t _ (nth_error_set_nth_eq _ _ _ _ _ Hp)) as X
+              | pose proof (Hnone (length (thr c)) (Job0 _ true, KJob)) as X;
+                rewrite nth_error_app2 in X by (rewrite set_nth_length; lia);
+                rewrite set_nth_length, Nat.sub_diag in X; specialize (X eq_refl) ];
+        simpl in X; discriminate X
+      | (* the pending job begins *)
+        simpl; rewrite app_nil_r; eapply p1; [exact Hp | reflexivity]
+      | (* nothing relevant changes *)
+        simpl; repeat rewrite app_nil_r; apply p2; intros u0 q0 H0;
+        destruct (Nat.eq_dec u0 t) as [->|Hne];
+        [ rewrite Hp in H0; inversion H0; reflexivity
+        | eapply Hnone; first [ apply nth_error_other0; eassumption | apply nth_error_other; eassumption ] ]
+      | idtac ].
+    all: exfalso.
+    all: assert (X : nth_error (set_nth (thr c) t (ret_to k) ++ [(Job0 a true, KJob)]) (length (thr c)) = Some (Job0 a true, KJob))
+           by (rewrite nth_error_app2 by (rewrite set_nth_length; lia); rewrite set_nth_length, Nat.sub_diag; reflexivity).
+    all: apply Hnone in X; discriminate X.
+  Qed.
+
+  (* ----- a non-empty queue with nothing active is being looked after ----- *)
+  Definition WR (c : config pc) : Prop :=
+    qu c <> [] -> act c = VNone -> exists u q, nth_error (thr c) u = Some q /\ will_run (fst q) = true.
+
+  Lemma inv3_willrun : forall c t c', Inv1 c -> Inv2 c -> WR c -> step' c t = Some c' -> WR c'.
+  Proof.
+    intros c t c' I I2 w Hs. pose proof (i_queue _ I2) as Q.
+    step_cases Hs I.
+    all: intros Hq Ha; simpl in Hq, Ha; unfold updn in Hq, Ha; simpl in Hq, Ha; simpl thr.
+    all: try (exfalso; apply Hq; reflexivity).
+    all: try discriminate Ha.
+    all: try (match goal with Equ : deques _ 0 = _ |- _ => try rewrite Equ in Q; destruct (aqueue (ev c)); simpl in Q; inversion Q; subst end).
+    all: try rewrite Ha.
+    all: try (destruct (qu c) eqn:Eq2; [exfalso; apply Hq; reflexivity|]).
+    all: simpl.
+    all: first
+      [ exists t; eexists; split;
+        [ first [ eapply nth_error_set_nth_eq; exact Hp | eapply nth_error_self; exact Hp ] | reflexivity ]
+      | destruct (w ltac:(congruence) Ha) as [u [q0 [Hu Hw]]];
+        destruct (Nat.eq_dec u t) as [->|Hne];
+        [ rewrite Hp in Hu; inversion Hu; subst; simpl in Hw; discriminate Hw
+        | exists u, q0; split; [first [ apply nth_error_other0; assumption | apply nth_error_other; assumption ] | exact Hw] ]
+      | idtac ].
+    all: discriminate Equ.
+  Qed.
+
+  (* ----- every queued job is in the queue, was cleared, or was taken ----- *)
+  Definition ENQ (c : config pc) : Prop :=
+    forall j, enqueued (ev c) j -> In j (aqueue (ev c)) \/ In j (cleared (ev c)) \/ In (SDeq j) (ev c).
+
+  Lemma inv3_enq : forall c t c', Inv1 c -> Inv2 c -> ENQ c -> step' c t = Some c' -> ENQ c'.
+  Proof.
+    intros c t c' I I2 en Hs. pose proof (i_queue _ I2) as Q.
+    step_cases Hs I.
+    all: intros jj He; specialize (en jj).
+    all: marks; simpl hist in *; unfold events in *; simpl map in *; fold (events (hist c)) in *.
+    all: try (match goal with Equ : deques _ 0 = _ :: _ |- _ => try rewrite Equ in Q; destruct (aqueue (ev c)) eqn:Eaq; simpl in Q; inversion Q; subst end).
+    all: unfold enqueued in *; simpl in He |- *.
+    all: destruct He as [[E|H]|[E|H]]; try discriminate E; try (inversion E; subst).
+    all: try rewrite Eaq; rewrite ?in_app_iff; simpl in *; intuition (try discriminate; subst; auto).
+  Qed.
 End Proofs.
